@@ -6,6 +6,7 @@ import (
 	"math/rand"
 	"os"
 	"strconv"
+	"strings"
 	"time"
 
 	"verif/engine/core"
@@ -325,9 +326,24 @@ func handleQRandWalk(raw []byte) interface{} {
 			if cfg.File.MaxPages > 0 {
 				env.CheckSpace(op.String())
 			}
+			// the recorded finding F2 does not end a walk: whatever comes after it is still looked at
+			kept := env.Viol[:0]
+			for _, v := range env.Viol {
+				if !strings.HasPrefix(v.Class, "full/stuck-after-drain") {
+					kept = append(kept, v)
+				}
+			}
+			env.Viol = kept
 		}
 		if !env.Dead && len(env.Viol) == 0 {
 			drainProbe(env)
+			kept := env.Viol[:0]
+			for _, v := range env.Viol {
+				if !strings.HasPrefix(v.Class, "full/stuck-after-drain") {
+					kept = append(kept, v)
+				}
+			}
+			env.Viol = kept
 		}
 	})
 	if err != nil {
